@@ -23,12 +23,20 @@ ASSUMPTIONS = ["parameter scale <= 2 (the gradient of -log p is ill-conditioned 
 def cases(draw, tier):
     t = draw(st.sampled_from(gen.TYPES))
     nmax = 3 if tier == "quick" else 4      # the property's quantifier goes to num_visible = 4 (thorough tier, all three types)
-    sc = draw(gen.state_case(types=[t], n=(1, nmax), nh=(1, 4), na=(1, 3), scales=[0.05, 0.5, 0.5, 2.0, 2.0], bound=60.0))
+    if t != "density" and draw(st.integers(0, 24)) == 0:
+        # beyond the box: a register with more than 128 / 256 basis states (size-dependent code paths in the exact negative phase)
+        sc = draw(gen.state_case(types=[t], n=(8, 9), nh=(1, 3), scales=[0.05, 0.5, 1.0], bound=40.0))
+        sc["large"] = True
+    else:
+        sc = draw(gen.state_case(types=[t], n=(1, nmax), nh=(1, 4), na=(1, 3), scales=[0.05, 0.5, 0.5, 2.0, 2.0], bound=60.0))
     n = sc["n"]
     N = draw(st.integers(1, 8))
     U01 = st.floats(0, 1, exclude_max=True, allow_nan=False, width=64)
     rows = []
-    allb = gen.basis_strings(n)
+    if sc.get("large"):
+        allb = ["Z" * n, "X" + "Z" * (n - 1), "Z" * (n - 2) + "YX", "XY" + "Z" * (n - 2)]
+    else:
+        allb = gen.basis_strings(n)
     rot = [b for b in allb if set(b) != {"Z"}]
     for i in range(N):
         if t == "positive":
@@ -204,7 +212,8 @@ def check_round(case, state):
     # Oracle B: per-sample 1-D form, permutation, split
     acc = None
     for i in (range(N) if N <= 40 else []):
-        gi = state.gradient(samples[i].clone(), **G(bases[i]))
+        bform = bases[i] if i % 3 == 0 else (list(bases[i]) if i % 3 == 1 else "".join(bases[i]))    # documented: numpy.ndarray or list[str]; a str behaves as a list of letters
+        gi = state.gradient(samples[i].clone(), **G(bform))
         gi = [x if isinstance(x, torch.Tensor) else torch.zeros_like(gs[j]) + float(x) for j, x in enumerate(gi)]
         acc = gi if acc is None else [a + b for a, b in zip(acc, gi)]
     if acc is not None:
